@@ -81,6 +81,17 @@ def port_alias_nodes(d):
 
 def apply_exclusions(d, kf, rng):
     """narrow domain predicates of open findings (see known_findings.json)"""
+    if kf.excluded('onehotmux-repeated-wire'):
+        sigw = netlist.sig_widths(d)
+        for nd in d['nodes']:
+            if nd['kind'] == 'OneHotMux':
+                seen = set()
+                for j, r in enumerate(nd['ins']):
+                    if r in seen:
+                        nm = 'i%d' % len(d['inputs'])
+                        d['inputs'].append({'name': nm, 'w': sigw[r]})
+                        nd['ins'][j] = nm
+                    seen.add(nd['ins'][j])
     if kf.excluded('shared-module-port-alias'):
         for nd in port_alias_nodes(d):
             seen = set()
@@ -240,6 +251,10 @@ def run(scn, log, st):
     if m2 is None:
         raise Violation('cosim-mismatch', 'cosim:uninit-storage:%s' % kind, step, detail + ' [disappears when uninitialised Verilog storage powers up as 0]')
     raise Violation('cosim-mismatch', 'cosim:%s%s' % (kind, predicates(scn['design'])), step, detail)
+
+
+def sig_base(sig):
+    return sig.replace(':port-alias', '')
 
 
 def shrink(scn):
